@@ -138,6 +138,16 @@ def special_graphs():
             I = [(0.03, 0.01), (0.02, 1.04), (-0.01, 2.03), (0.52, 2.71), (0.49, 3.77), (0.53, 4.72)]
         isl = {0: (I[0], [1]), 1: (I[1], [0, 2]), 2: (I[2], [1]), 3: (I[3], [4]), 4: (I[4], [3, 5]), 5: (I[5], [4])}
         yield (f"islands6-2way-{pos}", pos, isl)
+        # a main road with a dead-end spur alongside it and a long side road that fans out far away from the trace: the
+        # far branches are candidates that every cut-off rejects (they only exist as stopped entries under DEBUG)
+        if pos == "GRID":
+            Fo = [(0.0, 0.0), (0.0, 1.0), (0.0, 2.0), (0.0, 3.0), (0.0, 4.0), (0.0, 5.0), (0.0, 6.0), (0.8, 4.0), (-4.0, 1.0), (-6.0, 0.0), (-6.0, 1.0), (-6.0, 2.0)]
+        else:
+            Fo = [(0.02, 0.01), (0.01, 1.03), (-0.02, 2.02), (0.03, 2.98), (0.0, 4.01), (0.02, 5.03), (-0.01, 6.02), (0.81, 4.03), (-4.02, 1.01),
+                  (-6.01, 0.03), (-5.98, 1.02), (-6.03, 1.97)]
+        fan = {0: (Fo[0], [1]), 1: (Fo[1], [2, 7, 8]), 2: (Fo[2], [3]), 3: (Fo[3], [4]), 4: (Fo[4], [5]), 5: (Fo[5], [6]), 6: (Fo[6], []),
+               7: (Fo[7], []), 8: (Fo[8], [9, 10, 11]), 9: (Fo[9], []), 10: (Fo[10], []), 11: (Fo[11], [])}
+        yield (f"fanout12-1way-{pos}", pos, fan)
         if pos == "GENERIC":
             # two approach roads (0->1 and 2->3) that re-converge in node 5 and continue 5->6->7; 0->1 passes closest to the first
             # observation but continues far from the line between the observations, 2->3 is a bit further but continues along
@@ -184,6 +194,9 @@ def axis_traces(graph):
         # cross8: two observations around the crossing, then a long gap to the last road
         return [[(0.0, -0.5), (0.0, 0.5), (0.2, 6.0)], [(0.05, -0.6), (0.02, 0.4), (0.21, 5.5)], [(0.0, -0.5), (0.2, 6.0)],
                 [(0.15, -0.5), (0.0, 0.5), (0.2, 3.5), (0.2, 6.5)]]
+    if len(graph) == 12 and abs(graph[8][0][0] + 4.0) < 0.05:
+        # fanout12: sparse observations along the main road
+        return [[(0.0, 0.5), (0.2, 3.5), (-0.1, 4.7), (0.1, 5.6)], [(0.0, 0.5), (0.2, 3.5)], [(0.0, 0.5), (-0.1, 4.7), (0.1, 5.6)]]
     if len(graph) == 10 and tuple(graph[1][0]) == (4.0, 0.5):
         # approach10: from the junction area to the far end, with and without an observation in between
         return [[(0.0, 0.0), (0.0, 10.0)], [(0.0, 0.0), (0.5, 5.0), (0.0, 10.0)], [(0.2, -0.5), (0.0, 10.0)]]
